@@ -4,10 +4,13 @@ Local Open Scope N_scope.
 
 (** one observed loop iteration of the real engine: the handled event, CurrentTime() seen by the
     handler, the events whose Schedule call returned (in call order), whether the handler returned *)
-Record ostep := St { os_ev : sev; os_now : N; os_sched : list sev; os_ok : bool }.
+Record ostep := St { os_ev : sev; os_now : N; os_sched : list sev; os_ok : bool;
+                     os_hk : N }.   (* calls seen for this event, as digits: 1 BeforeEvent hook, 2 handler, 3 AfterEvent hook *)
 
 Record case := mk_case {
   c_prog : program; c_cap : N; c_init : list ievent;
+  c_t0 : N;                 (* SetCurrentTime(t0) after the initial Schedule calls (0: none) *)
+  c_hooks : bool;           (* a hook is attached (the hasHooks path of dispatchNext) *)
   o_out : N;                (* 0 = Run returned, 2 = panicked *)
   o_steps : list ostep;
   o_clock : N;              (* CurrentTime() afterwards *)
@@ -20,19 +23,22 @@ Definition sev_eqb (a b : sev) : bool :=
 
 Definition ostep_eqb (a b : ostep) : bool :=
   sev_eqb (os_ev a) (os_ev b) && (os_now a =? os_now b) &&
-  list_eqb sev_eqb (os_sched a) (os_sched b) && Bool.eqb (os_ok a) (os_ok b).
+  list_eqb sev_eqb (os_sched a) (os_sched b) && Bool.eqb (os_ok a) (os_ok b) && (os_hk a =? os_hk b).
 
-Definition proj_step (s : @step sev) : ostep :=
-  St (fst (st_ev s)) (st_now s) (map fst (st_sched s)) (st_ok s).
+(** dispatchNext: with hooks BeforeEvent, handler, AfterEvent (not reached when the handler panics) *)
+Definition hook_code (hooks ok : bool) : N := if hooks then (if ok then 123 else 12) else 2.
+
+Definition proj_step (hooks : bool) (s : @step sev) : ostep :=
+  St (fst (st_ev s)) (st_now s) (map fst (st_sched s)) (st_ok s) (hook_code hooks (st_ok s)).
 
 Definition out_code (o : outcome) : N :=
   match o with Done => 0 | OutOfFuel => 1 | Panicked => 2 end.
 
 (** model output = implementation output *)
 Definition check_case (c : case) : bool :=
-  let r := run_script (c_prog c) (c_cap c) (c_init c) in
+  let r := run_script_at (c_prog c) (c_cap c) (c_init c) (c_t0 c) in
   (out_code (r_out r) =? o_out c) &&
-  list_eqb ostep_eqb (map proj_step (r_log r)) (o_steps c) &&
+  list_eqb ostep_eqb (map (proj_step (c_hooks c)) (r_log r)) (o_steps c) &&
   (e_now (r_en r) =? o_clock c) &&
   list_eqb sev_eqb (snapshot (e_p (r_en r))) (o_pp c) &&
   list_eqb sev_eqb (snapshot (e_s (r_en r))) (o_ps c).
@@ -55,7 +61,7 @@ Fixpoint take_out (x : sev) (l : list sev) : option (list sev) :=
   end.
 
 (** reference walk: [pend] = scheduled and not yet handled (in Schedule order) *)
-Fixpoint walk (pend : list sev) (now : N) (steps : list ostep) : option (list sev * N * bool) :=
+Fixpoint walk (hooks : bool) (pend : list sev) (now : N) (steps : list ostep) : option (list sev * N * bool) :=
   match steps with
   | [] => Some (pend, now, true)
   | s :: r =>
@@ -67,21 +73,47 @@ Fixpoint walk (pend : list sev) (now : N) (steps : list ostep) : option (list se
              && (now <=? s_time x)                      (* time never decreases *)
              && (os_now s =? s_time x)                  (* the clock shows the event's time *)
              && forallb (fun y => s_time x <=? s_time y) (os_sched s)   (* only non-past Schedules return *)
+             && (os_hk s =? hook_code hooks (os_ok s))                  (* hooks bracket the handler *)
           then
-            if os_ok s then walk (rest ++ os_sched s) (s_time x) r
+            if os_ok s then walk hooks (rest ++ os_sched s) (s_time x) r
             else match r with [] => Some (rest ++ os_sched s, s_time x, false) | _ => None end
           else None
       end
   end.
 
+(** a panic is only acceptable when the script can pass a past time to Schedule *)
+Definition has_negative_dt (p : program) : bool :=
+  existsb (existsb (existsb (fun sp => (sp_dt sp <? 0)%Z))) p.
+
+(** the pending event that is due first, and the others *)
+Fixpoint find_min (cands all : list sev) : option (sev * list sev) :=
+  match cands with
+  | [] => None
+  | x :: r => match take_out x all with
+              | Some rest => if forallb (ord x) rest then Some (x, rest) else find_min r all
+              | None => find_min r all
+              end
+  end.
+
+Definition queues_are (c : case) (pend : list sev) : bool :=
+  (* what is still queued = what the reference says is pending, in (time, schedule) order *)
+  list_eqb sev_eqb (o_pp c) (fold_right (sins ord) [] (filter (fun y => negb (s_sec y)) pend)) &&
+  list_eqb sev_eqb (o_ps c) (fold_right (sins ord) [] (filter s_sec pend)).
+
 Definition holds_on (c : case) : bool :=
-  match walk (init_events 0 (c_init c)) 0 (o_steps c) with
+  match walk (c_hooks c) (init_events 0 (c_init c)) (c_t0 c) (o_steps c) with
   | None => false
   | Some (pend, now, ok) =>
       (o_clock c =? now) &&
-      (* what is still queued = what the reference says is pending, in (time, schedule) order *)
-      list_eqb sev_eqb (o_pp c) (fold_right (sins ord) [] (filter (fun y => negb (s_sec y)) pend)) &&
-      list_eqb sev_eqb (o_ps c) (fold_right (sins ord) [] (filter s_sec pend)) &&
-      (if ok then (o_out c =? 0) && match pend with [] => true | _ => false end   (* Run returns only when empty *)
-       else o_out c =? 2)
+      (if ok then
+         if o_out c =? 0 then
+           queues_are c pend && match pend with [] => true | _ => false end   (* Run returns only when empty *)
+         else
+           (* a panic outside any handler: only "cannot run event in the past", i.e. the clock was
+              set after the event due first, which is then dropped *)
+           match find_min pend pend with
+           | Some (m, rest) => (o_out c =? 2) && (s_time m <? now) && queues_are c rest
+           | None => false
+           end
+       else (o_out c =? 2) && has_negative_dt (c_prog c) && queues_are c pend)
   end.
